@@ -2231,9 +2231,9 @@ impl StorageEngine {
             }
         }
         
-        all_keys.sort();
+        all_keys.sort_by(|a, b| Self::scan_position(a).cmp(&Self::scan_position(b)).then_with(|| a.cmp(b)));
         
-        let start_pos = if cursor == 0 { 0 } else { cursor as usize };
+        let start_pos = all_keys.partition_point(|k| Self::scan_position(k) < cursor);
         if start_pos >= all_keys.len() && !all_keys.is_empty() {
             return Ok((0, Vec::new()));
         }
@@ -2270,7 +2270,7 @@ impl StorageEngine {
         let next_cursor = if current_pos >= all_keys.len() {
             0
         } else {
-            current_pos as u64
+            Self::scan_position(&all_keys[current_pos])
         };
         
         Ok((next_cursor, matching_keys))
@@ -2294,9 +2294,9 @@ impl StorageEngine {
                 }
                 
                 let mut fields: Vec<Vec<u8>> = hash.keys().cloned().collect();
-                fields.sort();
+                fields.sort_by(|a, b| Self::scan_position(a).cmp(&Self::scan_position(b)).then_with(|| a.cmp(b)));
                 
-                let start_pos = if cursor == 0 { 0 } else { cursor as usize };
+                let start_pos = fields.partition_point(|f| Self::scan_position(f) < cursor);
                 if start_pos >= fields.len() && !fields.is_empty() {
                     return Ok((0, Vec::new()));
                 }
@@ -2336,7 +2336,7 @@ impl StorageEngine {
                 let next_cursor = if current_pos >= fields.len() {
                     0
                 } else {
-                    current_pos as u64
+                    Self::scan_position(&fields[current_pos])
                 };
                 
                 Ok((next_cursor, result))
@@ -2361,9 +2361,9 @@ impl StorageEngine {
                 }
                 
                 let mut members: Vec<Vec<u8>> = set.iter().cloned().collect();
-                members.sort();
+                members.sort_by(|a, b| Self::scan_position(a).cmp(&Self::scan_position(b)).then_with(|| a.cmp(b)));
                 
-                let start_pos = if cursor == 0 { 0 } else { cursor as usize };
+                let start_pos = members.partition_point(|m| Self::scan_position(m) < cursor);
                 if start_pos >= members.len() && !members.is_empty() {
                     return Ok((0, Vec::new()));
                 }
@@ -2399,7 +2399,7 @@ impl StorageEngine {
                 let next_cursor = if current_pos >= members.len() {
                     0
                 } else {
-                    current_pos as u64
+                    Self::scan_position(&members[current_pos])
                 };
                 
                 Ok((next_cursor, result))
@@ -2425,13 +2425,13 @@ impl StorageEngine {
                     items.push((member, score));
                 }
                 
-                items.sort_by(|a, b| a.0.cmp(&b.0));
+                items.sort_by(|a, b| Self::scan_position(&a.0).cmp(&Self::scan_position(&b.0)).then_with(|| a.0.cmp(&b.0)));
                 
                 if items.len() <= max_scan_count && cursor == 0 && pattern.is_none() {
                     return Ok((0, items));
                 }
                 
-                let start_pos = if cursor == 0 { 0 } else { cursor as usize };
+                let start_pos = items.partition_point(|i| Self::scan_position(&i.0) < cursor);
                 if start_pos >= items.len() && !items.is_empty() {
                     return Ok((0, Vec::new()));
                 }
@@ -2467,7 +2467,7 @@ impl StorageEngine {
                 let next_cursor = if current_pos >= items.len() {
                     0
                 } else {
-                    current_pos as u64
+                    Self::scan_position(&items[current_pos].0)
                 };
                 
                 Ok((next_cursor, result))
@@ -2481,6 +2481,21 @@ impl StorageEngine {
         }
     }
 
+    /// Position of an element in the SCAN family's iteration order: a 64-bit hash of its bytes
+    /// (ties broken by the bytes themselves). The cursor handed to the client is the position at
+    /// which the next call resumes. A cursor that is an index into the sorted elements shifts
+    /// whenever another element is added or deleted between two calls, so a full iteration
+    /// could skip an element that was present all along; a position that depends on the
+    /// element alone cannot.
+    fn scan_position(element: &[u8]) -> u64 {
+        let mut hash: u64 = 0xcbf29ce484222325;
+        for &byte in element {
+            hash ^= byte as u64;
+            hash = hash.wrapping_mul(0x100000001b3);
+        }
+        hash
+    }
+    
     /// Background thread for cleaning up expired keys in sharded structure
     fn expiration_cleanup_loop(engine: Arc<StorageEngine>) {
         loop {
